@@ -1,5 +1,6 @@
 import Capella.Driver.Util
 import Capella.Model.Svg
+import Capella.Model.SvgDefs
 import Capella.Model.Wrap
 import Capella.Gen.StylesAux
 namespace Capella.Driver.Svg
@@ -93,8 +94,34 @@ def extW (tbl : List (Str × Rat × Rat)) (s : Str) : Rat :=
 def extH (tbl : List (Str × Rat × Rat)) (s : Str) : Rat :=
   match tbl.find? (fun p => p.1 = s) with | some p => p.2.2 | none => 0
 
+def kindName : DefKind → String
+  | .symbol => "symbol" | .marker => "marker" | .gradient => "gradient"
+
+def brName : Br → String
+  | .decoRow => "deco:registered" | .decoFallback => "deco:error-fallback" | .depCached => "dep:cached"
+  | .depNew => "dep:new" | .useCached => "use:cached" | .useNew => "use:new" | .gradNew => "gradient:new"
+  | .gradDup => "gradient:already-defined" | .gradSkip => "iter:plain-value" | .iterMarker => "iter:marker-attribute"
+  | .markerNone => "marker:none" | .markerNew => "marker:new" | .markerDup => "marker:already-defined"
+
+def diagramOf (j : Json) : Except String Diagram := do
+  let vp : Option Viewport ← match j.getObjVal? "viewport" with
+    | .ok Json.null | .error _ => pure none
+    | .ok v => do pure (some { x := ← ratKey v "x", y := ← ratKey v "y", w := ← ratKey v "w", h := ← ratKey v "h" })
+  let elems ← (← j.getObjValAs? (Array Json) "elems").toList.mapM fun e => do
+    pure ({ hidden := ← getBool e "hidden", obj := ← objOf (← e.getObjVal? "obj") } : Elem)
+  pure { cls := optStr j "dc", viewport := vp, elems := elems }
+
 def handle (op : String) (j : Json) : Except String Json := do
   match op with
+  | "svg.renderS" =>
+    match renderS T (← diagramOf j) with
+    | .ok doc => pure (Json.mkObj [("ok", Json.mkObj [
+        ("viewBox", int4 doc.viewBox),
+        ("groups", Json.arr (doc.groups.map fun g => Json.arr #[jstr g.id, jstr g.cls]).toArray),
+        ("refs", jstrs doc.refs),
+        ("defs", Json.arr (doc.defs.map fun e => Json.arr #[Json.str (kindName e.kind), jstr e.id, jstrs e.ids]).toArray),
+        ("log", Json.arr ((doc.log.eraseDups).map fun b => Json.str (brName b)).toArray)])])
+    | .error e => pure (Json.mkObj [("raise", Json.str (errName e))])
   | "svg.draw" =>
     let fixed := (j.getObjValAs? Bool "fixed").toOption.getD true
     let o ← objOf (← j.getObjVal? "obj")
